@@ -182,8 +182,28 @@ ROUTES = {
     "synth_fwd": lambda sm, E, e, v, p: sm.Partial(e, v).as_expression().at(p),
     "synth_deriv": lambda sm, E, e, v, p: sm.Derivative(e).as_expression().at(p),
     "synth_rev": lambda sm, E, e, v, p: sm.Differential(e, compute_early=True).component(v).as_expression().at(p),
+    # all components at once (v is a list of variable names)
+    "rev_all": lambda sm, E, e, v, p: (lambda ld: [ld.component(w) for w in v])(sm.LocatedDifferential(e, p)),
+    "diff_at_all": lambda sm, E, e, v, p: (lambda ld: [ld.component(w) for w in v])(sm.Differential(e).at(p)),
+    "diff_at_early_all": lambda sm, E, e, v, p: (lambda ld: [ld.component(w) for w in v])(sm.Differential(e, compute_early=True).at(p)),
     # simplification
     "norm": lambda sm, E, e, v, p: e._normalize().at(p),
+}
+
+# (make the derivative object, query it): lets a check keep ONE derivative object alive across several points
+ROUTE_PARTS = {
+    "fwd": (lambda sm, E, e, v: sm.Partial(e, v), lambda sm, E, o, v, p: o.at(p)),
+    "fwd_obj": (lambda sm, E, e, v: sm.Partial(e, E.Variable(v)), lambda sm, E, o, v, p: o.at(p)),
+    "deriv": (lambda sm, E, e, v: sm.Derivative(e), lambda sm, E, o, v, p: o.at(p)),
+    "diff_at": (lambda sm, E, e, v: sm.Differential(e), lambda sm, E, o, v, p: o.at(p).component(v)),
+    "diff_comp_at": (lambda sm, E, e, v: sm.Differential(e), lambda sm, E, o, v, p: o.component_at(v, p)),
+    "diff_comp": (lambda sm, E, e, v: sm.Differential(e).component(v), lambda sm, E, o, v, p: o.at(p)),
+    "fwd_early": (lambda sm, E, e, v: sm.Partial(e, v, compute_early=True), lambda sm, E, o, v, p: o.at(p)),
+    "deriv_early": (lambda sm, E, e, v: sm.Derivative(e, compute_early=True), lambda sm, E, o, v, p: o.at(p)),
+    "diff_at_early": (lambda sm, E, e, v: sm.Differential(e, compute_early=True), lambda sm, E, o, v, p: o.at(p).component(v)),
+    "diff_comp_at_early": (lambda sm, E, e, v: sm.Differential(e, compute_early=True), lambda sm, E, o, v, p: o.component_at(v, p)),
+    "fwd_after_asexp": (lambda sm, E, e, v: _after_asexp(sm.Partial(e, v)), lambda sm, E, o, v, p: o.at(p)),
+    "eval": (lambda sm, E, e, v: e, lambda sm, E, o, v, p: o.at(p)),
 }
 
 LATE_NUMERIC = ["fwd", "fwd_obj", "rev", "rev_obj", "diff_at", "diff_comp_at", "diff_comp"]
@@ -198,6 +218,24 @@ def run_route(route, e, v, p, passthrough=()):
     sm, E = ns()
     f = ROUTES[route]
     return outcome(lambda: f(sm, E, e, v, p), passthrough)
+
+
+def run_route_reusing(route, e, v, steps, p):
+    """build the route's object ONCE; steps: ("obj", point) queries that same object (outcome discarded),
+    ("expr", other_route, point) uses the expression through another entry point; finally query the object at p"""
+    sm, E = ns()
+    make, query = ROUTE_PARTS[route]
+    box = {}
+
+    def thunk():
+        box["o"] = make(sm, E, e, v)
+        for st in steps:
+            if st[0] == "obj":
+                outcome(lambda: query(sm, E, box["o"], v, st[1]))
+            else:
+                run_route(st[1], e, v, st[2])
+        return query(sm, E, box["o"], v, p)
+    return outcome(thunk)
 
 
 def make_point(coords):
